@@ -524,6 +524,38 @@ def merged_and_standalone_stream(ctx, res):
                 else:
                     got = outcome(lambda: c.loads(json.dumps(tree).encode(), format="json"))
                 judge({"stream": "merged-standalone", "what": "dict-entry-decode", "where": where, "value_field": kind, "route": route}, got, want, "dict-entry-decode")
+    # (a3) replacing an entry that is already there (by item assignment, by dotted path, inside a list item created during a load): a
+    # rejected value — or an unhashable key — is the library's error naming the entry, exactly as for a new key
+    for where in ("nested", "list-item"):
+        for bad_kind, bad in (("str", "lots"), ("negative-by-validator", -1), ("list", [1]), ("none-for-required", None)):
+            for route in ("item", "dotted", "update", "ior"):
+                leaf = cc.Schema()
+                leaf.quota = cc.DictField(cc.StringField(), cc.IntField(required=True, min=0), default=dict)
+                s = cc.Schema()
+                if where == "nested":
+                    s.cluster = leaf
+                    c = s()
+                    c.load_tree({"cluster": {"quota": {"cpu": 4, "mem": 8}}})
+                    owner, pre = c.cluster, "cluster"
+                else:
+                    s.pools = cc.ListField(leaf, default=lambda: [])
+                    c = s()
+                    c.load_tree({"pools": [{"quota": {}}, {"quota": {"cpu": 4, "mem": 8}}]})
+                    owner, pre = c.pools[1], "pools[1]"
+                want = "%s.quota[cpu]" % pre
+                if route == "item":
+                    got = outcome(lambda: owner.quota.__setitem__("cpu", bad))
+                elif route == "dotted":
+                    if where != "nested":
+                        continue
+                    got = outcome(lambda: c.__setitem__("cluster.quota", dict(owner.quota, cpu=bad)))
+                elif route == "update":
+                    got = outcome(lambda: owner.quota.update({"cpu": bad}))
+                else:
+                    got = outcome(lambda: owner.quota.__ior__({"cpu": bad}))
+                judge({"stream": "merged-standalone", "what": "replace-existing-entry", "where": where, "bad": bad_kind, "route": route}, got, want, "replace-existing-entry")
+        got = outcome(lambda: owner.quota.__setitem__(["cpu"], 1))
+        judge({"stream": "merged-standalone", "what": "replace-existing-entry", "where": where, "bad": "unhashable-key"}, got, "%s.quota[['cpu']]" % pre, "replace-existing-entry")
     # (b)
     for depth in (1, 2, 3, 4):
         names = ["net", "http", "tls", "opts"][:depth]
